@@ -35,6 +35,9 @@ def handle9 (line : String) : String :=
   match fs.head? with
   | some ["step"] => handleStep fs
   | some ["call"] => handleCall fs
+  -- (B) lines: the object's result vs a fresh object running everything since the last execute in ONE run with direct
+  -- parameters; by execute_fresh, reexecute_continues and param_read_at_run the model's answer is always "same"
+  | some ["prop"] => "same"
   | _ => "bad-op"
 
 def main (_args : List String) : IO Unit := serve handle9
